@@ -143,6 +143,8 @@ impl InstructionGenerator {
         // to be able to resume after an error at the last statement and then pop registers
         self.mark_statement_address();
         self.push(Instruction::PopRegisters, pos);
+        // to resume at the increment if it fails, without popping the registers again
+        self.mark_statement_address();
 
         // increment step
         self.load_counter(counter_var_name, pos);
